@@ -2,9 +2,9 @@
 Require Extraction.
 Require ExtrOcamlBasic.
 From Coq Require Import NArith ZArith.
-From FQE Require Import Model Rdm Resid CodeThm.
+From FQE Require Import Model Rdm Resid CodeThm NormThm CodeInv.
 Extraction Language OCaml.
 Extraction "Model.ml"
   m_gather m_apply_verdict m_evolve_inplace_verdict m_genu_verdict m_rdm_tensor_verdict m_setdata_spec m_comm4 m_check_cert m_ext_blocks m_ext_full m_persist m_rdm m_export m_import m_jw_code m_ctor m_trev m_hist m_apply m_apply_h m_matel_h m_inner m_matel m_strings m_zmat m_addr m_exc_map m_dexc m_opstring m_binom
-  unitri m_annih m_cnt_between m_cnt_above64 m_cnt_below m_popcount m_occ
+  unitri left_inv m_l1 m_mass m_annih m_cnt_between m_cnt_above64 m_cnt_below m_popcount m_occ
   N.add N.mul N.div_eucl N.of_nat N.to_nat Z.of_N Z.to_N Z.opp Z.add Z.mul Z.abs_N.
